@@ -221,6 +221,20 @@ fn oracle_a(out: &mut Out, progs: &[Vec<Call>], o: &OutcomeA) {
                 }
             }
         }
+        // outside the window (abs_deltas_sum_at_quiescence): all deltas ever sent — the two quiescent flushes
+        // afterwards included — add up to exactly (last value) − (first value), without wrapping
+        if !sig {
+            let vals: Vec<u64> = progs.iter().flatten().filter_map(|c| if let Call::Abs(v) = c { Some(*v) } else { None }).collect();
+            if let (Some(f), Some(l)) = (vals.first(), vals.last()) {
+                let sent: u128 = o.flushes.iter().chain(o.final_flushes.iter()).flatten().map(|d| *d as u128).sum();
+                if o.final_flushes.len() == 2 && sent != (*l as u128).wrapping_sub(*f as u128) {
+                    out.oracle_fail(
+                        "absolute-only counter racing the flusher outside the known window: deltas do not add up to last value minus first value",
+                        &format!("first {} last {} sent {} (during the run {:?}, afterwards {:?}) trace {:?}", f, l, sent, o.flushes, o.final_flushes, o.run.trace),
+                    );
+                }
+            }
+        }
         for (i, f) in o.flushes.iter().enumerate() {
             if let Some(d) = f {
                 if *d > maxv {
@@ -294,6 +308,18 @@ fn oracle_a(out: &mut Out, progs: &[Vec<Call>], o: &OutcomeA) {
     }
 }
 
+/// number of flushes whose (load `current`, swap `last`) pair overlaps the (`last` store, `current` store) pair of the
+/// absolute() that switches the counter into absolute mode: load before the `current` store and swap after the `last`
+/// store. A load without its swap in the trace cannot happen in a completed run.
+fn abs_window_flushes(tr: &[(usize, &'static str)]) -> usize {
+    let a = tr.iter().position(|(_, id)| *id == "agg.cabs.store_last");
+    let b = a.and_then(|a| tr[a..].iter().position(|(_, id)| *id == "agg.cabs.store_current").map(|x| x + a));
+    let (Some(a), Some(b)) = (a, b) else { return 0 };
+    let loads: Vec<usize> = tr.iter().enumerate().filter(|(_, (_, id))| *id == "agg.cflush.load_current").map(|x| x.0).collect();
+    let swaps: Vec<usize> = tr.iter().enumerate().filter(|(_, (_, id))| *id == "agg.cflush.swap_last").map(|x| x.0).collect();
+    loads.iter().zip(swaps.iter()).filter(|(l, w)| **w > a && **l < b).count()
+}
+
 fn one_a(out: &mut Out, progs: &[Vec<Call>], sch: &[usize], legacy: bool) {
     let o = execute_a(progs, sch);
     let taken: Vec<usize> = o.run.trace.iter().map(|(t, _)| *t).collect();
@@ -301,6 +327,19 @@ fn one_a(out: &mut Out, progs: &[Vec<Call>], sch: &[usize], legacy: bool) {
         &format!("agg run {} {} {}", legacy as u8, list(progs.iter().map(|p| prog_tok(p))), sched::sched_tok(&taken)),
         &answer_a(&o),
     );
+    // absolute-only programs: the number of flushes inside the K-C10-abs-race window, computed from the trace of the
+    // real run, against the model's predicate on the schedule (`absRaceCount`)
+    if progs.iter().flatten().all(|c| !matches!(c, Call::Inc(_))) && progs.iter().flatten().any(|c| matches!(c, Call::Abs(_))) {
+        let w = abs_window_flushes(&o.run.trace);
+        out.op(
+            &format!("agg absrace {} {}", list(progs.iter().map(|p| prog_tok(p))), sched::sched_tok(&taken)),
+            &w.to_string(),
+        );
+        out.count(if w > 0 { "a.abs.window.inside" } else { "a.abs.window.outside" });
+        if w > 0 {
+            out.nontrivial();
+        }
+    }
     // non-trivial: a flush step was granted between an increment's add_current and its add_updates
     let tr = &o.run.trace;
     let mut inside = vec![false; progs.len()];
@@ -1054,6 +1093,8 @@ pub fn run(cfg: &Cfg, out: &mut Out) {
             vec![vec![Call::Inc(5)], vec![Call::Flush, Call::Flush, Call::Flush]],
             vec![vec![Call::Inc(3)], vec![Call::Inc(4)], vec![Call::Flush, Call::Flush]],
             vec![vec![Call::Inc(1), Call::Inc(2)], vec![Call::Flush, Call::Flush, Call::Flush]],
+            // absolute-only updater racing the flusher: every schedule, window predicate compared on each
+            vec![vec![Call::Abs(10), Call::Abs(25)], vec![Call::Flush, Call::Flush]],
         ];
         for progs in configs {
             let mut prefix: Vec<usize> = vec![];
@@ -1068,6 +1109,14 @@ pub fn run(cfg: &Cfg, out: &mut Out) {
                     &format!("agg run {} {} {}", legacy as u8, list(progs.iter().map(|p| prog_tok(p))), sched::sched_tok(&taken)),
                     &answer_a(&o),
                 );
+                if progs.iter().flatten().any(|c| matches!(c, Call::Abs(_))) {
+                    let w = abs_window_flushes(&o.run.trace);
+                    out.op(
+                        &format!("agg absrace {} {}", list(progs.iter().map(|p| prog_tok(p))), sched::sched_tok(&taken)),
+                        &w.to_string(),
+                    );
+                    out.count(if w > 0 { "a.abs.window.inside" } else { "a.abs.window.outside" });
+                }
                 oracle_a(out, &progs, &o);
                 if runs >= 20000 {
                     break;
